@@ -243,11 +243,22 @@ func withPreset(c *Case) {
 		c.Cfg = append(c.Cfg, []string{"preset", "high"})
 		c.Stat = append(c.Stat, "preset-high-performance")
 	}
+	// WithLowLatency() (input buffer of 100, block strategy with a one-second timeout, window output buffer of 20) only
+	// where a case never has more than a few rows or batches in flight, so that nothing can be dropped legitimately
+	if c.Idx%5 == 3 && presetLowOK[c.Prop] {
+		c.Cfg = append(c.Cfg, []string{"preset", "low"})
+		c.Stat = append(c.Stat, "preset-low-latency")
+	}
 }
+
+var presetLowOK = map[string]bool{"C05": true, "C06": true, "C12": true, "C13": true, "C14": true, "C16": true, "C20": true}
 
 func presetOpt() streamsql.Option {
 	if curPreset == "high" {
 		return streamsql.WithHighPerformance()
+	}
+	if curPreset == "low" {
+		return streamsql.WithLowLatency()
 	}
 	return func(*streamsql.Streamsql) {}
 }
